@@ -17,6 +17,7 @@ import (
 	"github.com/go-kid/ioc/app"
 	"github.com/go-kid/ioc/configure/loader"
 	"github.com/go-kid/ioc/syslog"
+	"gopkg.in/yaml.v3"
 )
 
 type VPCase struct {
@@ -40,6 +41,62 @@ type VPCons struct {
 	K string `json:"k"`
 	N int    `json:"n"`
 }
+
+// components of the "alias" cases: A binds key k and writes through the bound value in Init; B (created later) binds k again
+type aliasAM struct {
+	F map[string]any `prefix:"k"`
+}
+type aliasAL struct {
+	F []any `prefix:"k"`
+}
+type aliasAA struct {
+	F any `prefix:"k"`
+}
+type aliasBM struct {
+	P map[string]any `prefix:"k"`
+	V map[string]any `value:"${k}"`
+}
+type aliasBL struct {
+	P []any `prefix:"k"`
+	V []any `value:"${k}"`
+}
+type aliasBA struct {
+	P any `prefix:"k"`
+	V any `value:"${k}"`
+}
+
+func scribble(x any) {
+	switch v := x.(type) {
+	case map[string]any:
+		for k, e := range v {
+			switch e.(type) {
+			case map[string]any, []any:
+				scribble(e) // nested maps / lists are written in place
+			default:
+				v[k] = "scribbled"
+			}
+		}
+		v["zz"] = "scribbled"
+	case []any:
+		for i, e := range v {
+			switch e.(type) {
+			case map[string]any, []any:
+				scribble(e)
+			default:
+				v[i] = "scribbled"
+			}
+		}
+	}
+}
+func (*aliasAM) Naming() string { return "a-alias" }
+func (*aliasAL) Naming() string { return "a-alias" }
+func (*aliasAA) Naming() string { return "a-alias" }
+func (*aliasBM) Naming() string { return "b-alias" }
+func (*aliasBL) Naming() string { return "b-alias" }
+func (*aliasBA) Naming() string { return "b-alias" }
+func (a *aliasAM) Init() error  { scribble(a.F); return nil }
+func (a *aliasAL) Init() error  { scribble(a.F); return nil }
+func (a *aliasAA) Init() error  { scribble(a.F); return nil }
 
 type vpInner struct {
 	A int            `yaml:"a" json:"a"`
@@ -219,6 +276,40 @@ func runVP(c *VPCase) map[string]any {
 			cons = []VPCons{}
 		}
 		out["x"], out["cons"], out["ok"], out["panic"] = c.Val, cons, ok, p
+	case "alias":
+		// two components bind the same key; the first one WRITES through its bound map / list in Init.  Bound values are
+		// private: the second component and the configuration itself still show the configured value.
+		var a, b any
+		switch c.FType {
+		case "map":
+			a, b = &aliasAM{}, &aliasBM{}
+		case "anylist":
+			a, b = &aliasAL{}, &aliasBL{}
+		default:
+			a, b = &aliasAA{}, &aliasBA{}
+		}
+		var want any
+		_ = yaml.Unmarshal([]byte(c.YAML), &want)
+		if m, ok := want.(map[string]any); ok {
+			want = m["k"]
+		}
+		ok, panicked := true, false
+		get := "-"
+		func() {
+			defer func() {
+				if x := recover(); x != nil {
+					ok, panicked = false, true
+				}
+			}()
+			ap := app.NewApp()
+			if err := ap.Run(app.LogLevel(syslog.LvPanic), app.SetComponents(a, b), app.SetConfigLoader(loader.NewRawLoader([]byte(c.YAML)))); err != nil {
+				ok = false
+			}
+			get = jsonOf(ap.Get("k"))
+		}()
+		bv := reflect.ValueOf(b).Elem()
+		out["ftype"], out["want"], out["ok"], out["panic"] = c.FType, jsonOf(want), ok, panicked
+		out["bp"], out["bv"], out["get"] = jsonOf(bv.Field(0).Interface()), jsonOf(bv.Field(1).Interface()), get
 	case "vnest":
 		// `required` on a NESTED STRUCT member of a validated, prefix-bound struct: violated when the member is unset
 		type nestE struct {
